@@ -1,10 +1,21 @@
 #!/usr/bin/env python3
 """Show the block that contains the first VIOL/MISMATCH/FAIL verdict of a trace."""
 import subprocess, sys
+import os
 path = sys.argv[1]
 maxw = int(sys.argv[2]) if len(sys.argv) > 2 else 300
+ROOT = os.path.dirname(os.path.dirname(os.path.abspath(__file__)))
+DRIVER = os.path.join(ROOT, 'lean', '.lake', 'build', 'bin', 'driver')
+HARNESS = os.path.join(ROOT, 'bin', 'harness')
+# replay files of the special modes: re-run the real code on the recorded scenario
+if path.endswith('.replay'):      # events store op sequence (C24)
+    sys.exit(subprocess.run([HARNESS, 'events', '-trace', path, '-driver', DRIVER, '-out', '-']).returncode)
+if path.endswith('.history'):     # order-book history (C13/C14)
+    sys.exit(subprocess.run([HARNESS, 'orders-replay', '-trace', path, '-driver', DRIVER, '-out', '-']).returncode)
+if not path.endswith('.trace'):   # textual report of a mode (crash point, restart twin, export, snapshot, concurrent, proof breakage)
+    print(open(path, errors='replace').read()[:20000]); sys.exit(0)
 t = open(path).read().split('\n')
-out = subprocess.run(['/verif/lean/.lake/build/bin/driver'], input='\n'.join(t), capture_output=True, text=True).stdout.split('\n')
+out = subprocess.run([DRIVER], input='\n'.join(t), capture_output=True, text=True).stdout.split('\n')
 opi = 0; first = None; msgs = []
 for l in out:
     if l == '.': opi += 1
